@@ -135,6 +135,13 @@ func checkInput(kind, name, src string, faithful bool) {
 	if !faithful {
 		return
 	}
+	// what follows parses the same input again (tgen.Generate) and walks the tree: a panic there is a verdict about
+	// the parser or generator (e.g. state left behind by an earlier, rejected input), not an end of the check
+	defer func() {
+		if p := recover(); p != nil {
+			run.Violation("panic:"+firstWords(fmt.Sprint(p)), fmt.Sprintf("%s of %s: parsing the input a second time, generating or walking its tree panicked: %v", kind, name, p), replay)
+		}
+	}()
 	if _, _, _, err := tgen.Generate(src, "x.templ"); err != nil {
 		return // not accepted by `templ generate`
 	}
